@@ -163,7 +163,20 @@ func (c09) Gen(tier string, seed int64, emit func([]Ev)) {
 				case 17:
 					e["field"], e["arg"] = "seg.hassub", r.Intn(2) == 0
 				case 18:
-					if r.Intn(2) == 0 {
+					if w := r.Intn(4); w >= 2 {
+						// read-modify-write: the descriptor's own Components()/MID() views handed back
+						// in another order, some dropped, fresh ones inserted (plan: -1 = a fresh entry)
+						plan := []int{}
+						for q := r.Intn(5); q > 0; q-- {
+							plan = append(plan, r.Intn(5)-1)
+						}
+						fresh := []Ev{}
+						for range plan {
+							fresh = append(fresh, Ev{"tag": r.Intn(256), "off": W64(rnd33(r)), "type": []int{9, 14, 1}[r.Intn(3)], "upid": B(rndBytes(r, r.Intn(10)))})
+						}
+						e["field"], e["plan"], e["fresh"] = []string{"seg.comps", "seg.mid"}[w-2], plan, fresh
+						e["arg"] = []Ev{} // resolved at execution time from the views read before the call
+					} else if w == 0 {
 						m := []Ev{}
 						for q := r.Intn(3); q > 0; q-- {
 							m = append(m, Ev{"type": []int{9, 14, 1}[r.Intn(3)], "upid": B(rndBytes(r, r.Intn(10)))})
@@ -453,6 +466,25 @@ func c09Set(e Ev, st *c09State) {
 			e["got"] = d.HasSubSegments()
 		case "seg.mid":
 			var us []scte35.UPID
+			if plan, ok := e["plan"]; ok {
+				own := d.MID()
+				fresh := toList(e["fresh"])
+				res := []Ev{}
+				for k, ix := range GIs(plan) {
+					var u scte35.UPID
+					if ix >= 0 && ix < len(own) {
+						u = own[ix]
+					} else {
+						m := asMap(fresh[k])
+						u = scte35.CreateUPID()
+						u.SetUPIDType(scte35.SegUPIDType(GI(m["type"])))
+						u.SetUPID(GB(m["upid"]))
+					}
+					us = append(us, u)
+					res = append(res, Ev{"type": int(u.UPIDType()), "upid": B(u.UPID())})
+				}
+				e["arg"], arg = res, []interface{}{}
+			}
 			for _, x := range toList(arg) {
 				m := asMap(x)
 				u := scte35.CreateUPID()
@@ -468,6 +500,25 @@ func c09Set(e Ev, st *c09State) {
 			e["got"] = got
 		case "seg.comps":
 			var cs []scte35.ComponentOffset
+			if plan, ok := e["plan"]; ok {
+				own := d.Components()
+				fresh := toList(e["fresh"])
+				res := []Ev{}
+				for k, ix := range GIs(plan) {
+					var c scte35.ComponentOffset
+					if ix >= 0 && ix < len(own) {
+						c = own[ix]
+					} else {
+						m := asMap(fresh[k])
+						c = scte35.CreateComponentOffset()
+						c.SetComponentTag(byte(GI(m["tag"])))
+						c.SetPTSOffset(gots.PTS(UW64(m["off"])))
+					}
+					cs = append(cs, c)
+					res = append(res, Ev{"tag": int(c.ComponentTag()), "off": W64(uint64(c.PTSOffset()))})
+				}
+				e["arg"], arg = res, []interface{}{}
+			}
 			for _, x := range toList(arg) {
 				m := asMap(x)
 				c := scte35.CreateComponentOffset()
